@@ -60,7 +60,7 @@ fn push_block(sh: &mut Sheet, id: u32) {
 }
 
 /// spellings of `:host` (the same selector for a tokenizer: comments are no tokens, escapes are resolved)
-pub const HOST_SPELLINGS: &[&str] = &[":host", ":/*c*/host", ":h\\6f st", ":\\68ost"];
+pub const HOST_SPELLINGS: &[&str] = &[":host", ":/*c*/host", ":h\\6f st", ":\\68ost", ":HOST", ":Host"];
 thread_local! {
     /// how the `:host` selectors of the sheet being built are spelled (index into HOST_SPELLINGS)
     pub static HOST_SPELLING: std::cell::Cell<usize> = std::cell::Cell::new(0);
@@ -77,7 +77,10 @@ fn push_selector(sh: &mut Sheet, leaf: Leaf) {
                 sh.plain("host", c);
             }
             2 => sh.plain("h\\6f st", c),
-            _ => sh.plain("\\68ost", c),
+            3 => sh.plain("\\68ost", c),
+            // (pseudo-class names are ASCII case-insensitive)
+            4 => sh.plain("HOST", c),
+            _ => sh.plain("Host", c),
         }
     };
     match leaf {
